@@ -938,7 +938,9 @@ func (g *FnGen) loopFrameCheck(fam, ref string, pos token.Pos) {
 		if li.spec != nil && li.spec.LocalOnly && li.allocEntry != "" {
 			a0 = li.allocEntry
 		}
-		goal := fmt.Sprintf("(or (>= %s %s) %s)", ref, a0, g.loopFrameCond(li, fam, ref))
+		// ref 0 is the nil slice / nil map: nothing is stored there at run time (append(nil) of no elements stays nil; every
+		// other write through nil panics or reallocates), the model's row 0 is never read
+		goal := fmt.Sprintf("(or (= %s 0) (>= %s %s) %s)", ref, ref, a0, g.loopFrameCond(li, fam, ref))
 		g.oblige("frame", g.ordName(fmt.Sprintf("frame/loop%d", li.ord)), goal, "write inside the loop touches only objects allocated by this function or named in the loop's assigns clause", pos)
 	}
 }
